@@ -74,6 +74,10 @@ def parseNAct (j : Json) : Except String NAct := do
   | "ctlRemoveTargetById" =>
     pure (.ctlRemoveTargetById (← j.getObjValAs? Nat "lo") (← j.getObjValAs? Nat "hi")
       (← parseVarName (← j.getObjValAs? String "v")) (lower (← hexField j "k")))
+  | "ctlAuditEngine" =>
+    let m ← j.getObjValAs? String "m"
+    pure (.ctlAuditEngine (match m with | "On" => .on | "RelevantOnly" => .relevantOnly | _ => .off))
+  | "ctlAuditLogParts" => pure (.ctlAuditLogParts (← hexField j "k"))
   | "nop" => pure .nop
   | _ => throw s!"nact {n}"
 
@@ -137,6 +141,10 @@ def parseCall (s : String) : Except String Call :=
   | "lg" => pure .logging | _ => throw "call"
 
 structure Case where
+  ae : AuditEngine := .off
+  rs : String := "-"
+  resp : Bytes := []
+  parts : Bytes := []
   mode : EngineMode
   rules : List Rule
   get : List (Bytes × Bytes)
@@ -152,9 +160,14 @@ def parseCase (s : String) : Except String Case := do
   let post ← parsePairs j "post"
   let hdr ← parsePairs j "hdr"
   let calls ← (← j.getObjValAs? (Array String) "calls").toList.mapM parseCall
-  pure ⟨mode, rules, get, post, hdr, calls⟩
+  let ae := match j.getObjValAs? String "ae" with
+    | .ok "On" => AuditEngine.on | .ok "RelevantOnly" => .relevantOnly | _ => .off
+  let rs := match j.getObjValAs? String "rs" with | .ok s => s | _ => "-"
+  let resp := match j.getObjValAs? String "resp" with | .ok s => (Bytes.ofField s).getD [] | _ => []
+  let parts := match j.getObjValAs? String "parts" with | .ok s => (Bytes.ofField s).getD [] | _ => []
+  pure { ae := ae, rs := rs, resp := resp, parts := parts, mode := mode, rules := rules, get := get, post := post, hdr := hdr, calls := calls }
 
-def initTx (c : Case) : Tx := feed (freshTx c.mode) c.get c.post c.hdr
+def initTx (c : Case) : Tx := { feed (newTx c.mode {} c.ae c.parts) c.get c.post c.hdr with respCode := c.resp }
 
 /-! ### canonical rendering (must match go/cmd/corr/eng.go) -/
 
@@ -197,6 +210,29 @@ def model (args : List String) : Option String :=
   | [js] =>
     match parseCase js with
     | .ok c => if outsideModel c then none else some (runCase c)
+    | .error _ => none
+  | _ => none
+
+/-- the relevant-status patterns the harness uses: pre:<d> = ^d, sub:<d> = d, eq:<d> = ^d$ -/
+def statusMatcher (rs : String) : Option (Bytes → Bool) :=
+  match rs.splitOn ":" with
+  | ["pre", d] => some (fun s => (Bytes.ofString d).isPrefixOf s)
+  | ["sub", d] => some (fun s => Coraza.Op.isInfixB (Bytes.ofString d) s)
+  | ["eq", d] => some (fun s => s == Bytes.ofString d)
+  | _ => none
+
+/-- `audit <case>`: what ProcessLogging writes: record count, rule ids of its messages, parts, callback ids -/
+def auditModel (args : List String) : Option String :=
+  match args with
+  | [js] =>
+    match parseCase js with
+    | .ok c =>
+      if outsideModel c then none else
+      let (tx, _) := runCalls env c.rules (initTx c) c.calls
+      let w := auditDecision tx (statusMatcher c.rs)
+      let ids := if w then orDash (",".intercalate ((auditMessageIds c.rules tx).map toString)) else "-"
+      let parts := if w then Bytes.toField tx.auditParts else "-"
+      some s!"w={if w then 1 else 0} ids={ids} parts={parts} cb={orDash (",".intercalate (tx.errCb.map toString))}"
     | .error _ => none
   | _ => none
 
